@@ -15,7 +15,9 @@
     `self.E_matrix[:, 0, i_receiver, delay_samples] += energy` adds `energy[b]` to band `b` at that bin (dropped by the caller of the
     generated function when the bin is outside the histogram - numpy raises IndexError there, recorded as D5-like behaviour of
     the Kang engine in the correspondence, not modelled here); `wall.get_form_factor(patches_list, i_source, self.wall_id,
-    i_receiver)` is an opaque number `form_factor`; `wall.E_matrix[f, k-1, i_source, :]` is the histogram `A_k_minus_1`."""
+    i_receiver)` is an opaque number `form_factor`; `wall.E_matrix[f, k-1, i_source, :]` is the histogram `A_k_minus_1`.
+  * also recognised: the body of `PatchesKang.energy_at_receiver` (Kang eq. 20 per patch, order and band), the direct-sound branch of
+    `RadiosityKang.energy_at_receiver` and the call schedule of `RadiosityKang.run` (rendered as the list of calls it makes)."""
 import ast
 import copy
 from .pyast import func, src, dotted, TranslationError
@@ -314,6 +316,89 @@ def exchangeCell %s
 '''
 
 
+EXPECTED_RECV = [
+    "energy_response = np.zeros((self.n_bins, self.E_n_samples))",
+    "for i_source, source_patch in enumerate(self.patches):\n    source_pos = source_patch.center\n    receiver_pos = receiver.position\n"
+    "    difference = np.abs(receiver_pos - source_pos)\n    R = np.linalg.norm(source_pos - receiver_pos)\n"
+    "    delay = int(R / speed_of_sound * sampling_rate)\n"
+    "    cos_xi = np.abs(np.sum(source_patch.normal * difference)) / np.linalg.norm(source_pos - receiver_pos)\n"
+    "    for k in range(max_order + 1):\n        for i_frequency in range(self.n_bins):\n"
+    "            energy = self.E_matrix[i_frequency, k, i_source, :]\n            delayed_energy = _add_delay(energy, delay)\n"
+    "            factor = cos_xi * np.exp(-self.sound_attenuation_factor[i_frequency] * R) / (np.pi * R ** 2)\n"
+    "            receiver_energy = delayed_energy * factor\n            if factor < 0:\n                print(factor)\n"
+    "            energy_response[i_frequency, ...] += receiver_energy",
+    "return energy_response",
+]
+
+EXPECTED_RUN = [
+    "self.source = source",
+    "for patches in self.patch_list:\n    patches.init_energy_exchange(self.max_order_k, self.ir_length_s, source, sampling_rate=self.sampling_rate, speed_of_sound=self.speed_of_sound)",
+    "if len(self.patch_list) > 1:\n    for patches in self.patch_list:\n        patches.calculate_form_factor(self.patch_list)",
+    "if len(self.patch_list) > 1:\n    for k in range(1, self.max_order_k + 1):\n        for patches in self.patch_list:\n"
+    "            patches.calculate_energy_exchange(self.patch_list, k, speed_of_sound=self.speed_of_sound, E_sampling_rate=self.sampling_rate)",
+]
+
+EXPECTED_ROOM_RECV = [
+    "ir = 0",
+    "if max_order_k is None:\n    max_order_k = self.max_order_k",
+    "M_value = self.patch_list[0].sound_attenuation_factor",
+    "for patches in self.patch_list:\n    ir += patches.energy_at_receiver(max_order_k, receiver, speed_of_sound=self.speed_of_sound, sampling_rate=self.sampling_rate)",
+    "if not ignore_direct:\n    r = np.sqrt(np.sum((receiver.position - self.source.position) ** 2))\n"
+    "    direct_sound = 1 / (4 * np.pi * np.square(r)) * np.exp(-M_value * r)\n"
+    "    delay_dir = int(r / self.speed_of_sound * self.sampling_rate)\n    ir[:, delay_dir] += direct_sound",
+    "return ir",
+]
+
+LEAN_RECV = '''/-- recognised from the body of `PatchesKang.energy_at_receiver` (%(k)s): what order `k` of one patch adds to
+    `energy_response[i_frequency, :]` (`none` = the ValueError of `_add_delay`; the `print` of a negative factor has no effect on the
+    result).  `energy` is `self.E_matrix[i_frequency, k, i_source, :]` of length `n_samples`. -/
+def receiverContribution %(c)s
+    (source_pos receiver_pos normal : Nat → α) (speed_of_sound sampling_rate : α) (energy : Nat → α) (n_samples : Nat)
+    (self_sound_attenuation_factor : Nat → α) (i_frequency : Nat) : Option (Nat → α) :=
+  let difference : Nat → α := fun q_ => Cmp.abs (receiver_pos q_ - source_pos q_)
+  let R : α := Transc.sqrt ((source_pos 0 - receiver_pos 0) * (source_pos 0 - receiver_pos 0) +
+    (source_pos 1 - receiver_pos 1) * (source_pos 1 - receiver_pos 1) + (source_pos 2 - receiver_pos 2) * (source_pos 2 - receiver_pos 2))
+  let delay : Nat := ToBin.floorNat (R / speed_of_sound * sampling_rate)
+  let cos_xi : α := Cmp.abs (normal 0 * difference 0 + normal 1 * difference 1 + normal 2 * difference 2) / R
+  (addDelay energy n_samples delay).map fun delayed_energy =>
+    let factor : α := cos_xi * Transc.exp (-(self_sound_attenuation_factor i_frequency) * R) / (Transc.pi * (R * R))
+    fun t_ => delayed_energy t_ * factor
+
+/-- the loops of `PatchesKang.energy_at_receiver` seen from one cell `energy_response[i_frequency, t]`: patch by patch and order by
+    order (`k = 0 .. max_order`).  `patches` lists (centre, normal, histograms by order). -/
+def receiverCell %(c)s
+    (receiver_pos : Nat → α) (speed_of_sound sampling_rate : α) (n_samples max_order : Nat)
+    (patches : List ((Nat → α) × (Nat → α) × (Nat → Nat → α))) (self_sound_attenuation_factor : Nat → α) (i_frequency t : Nat) : Option α :=
+  patches.foldl (fun acc_ p_ => (List.range (max_order + 1)).foldl (fun acc_ k =>
+    match acc_, receiverContribution p_.1 receiver_pos p_.2.1 speed_of_sound sampling_rate (p_.2.2 k) n_samples
+        self_sound_attenuation_factor i_frequency with
+    | some a_, some e_ => some (a_ + e_ t)
+    | _, _ => none) acc_) (some 0)
+
+/-- recognised from the direct-sound branch of `RadiosityKang.energy_at_receiver` (%(k)s): the bin and the per-band value added by
+    `ir[:, delay_dir] += direct_sound`; `M_value` is the attenuation of the FIRST wall -/
+def directSoundKang %(c)s
+    (receiver_position source_position : Nat → α) (M_value : Nat → α) (speed_of_sound sampling_rate : α) : Nat × (Nat → α) :=
+  let r : α := Transc.sqrt ((receiver_position 0 - source_position 0) * (receiver_position 0 - source_position 0) +
+    (receiver_position 1 - source_position 1) * (receiver_position 1 - source_position 1) +
+    (receiver_position 2 - source_position 2) * (receiver_position 2 - source_position 2))
+  let direct_sound : Nat → α := fun b_ => ((1 : Nat) : α) / (((4 : Nat) : α) * Transc.pi * (r * r)) * Transc.exp (-(M_value b_) * r)
+  let delay_dir : Nat := ToBin.floorNat (r / speed_of_sound * sampling_rate)
+  (delay_dir, direct_sound)
+
+/-- the calls `RadiosityKang.run` makes, in order (recognised): `init w`, then (more than one wall) `formFactor w`, then for
+    `k = 1 .. max_order_k` `exchange w k`, each for all walls `w` in list order -/
+inductive KangCall where
+  | init (w : Nat) | formFactor (w : Nat) | exchange (w k : Nat)
+  deriving DecidableEq, Repr
+
+def runSchedule (n_walls max_order_k : Nat) : List KangCall :=
+  (List.range n_walls).map KangCall.init ++
+  (if n_walls > 1 then (List.range n_walls).map KangCall.formFactor else []) ++
+  (if n_walls > 1 then (List.range max_order_k).flatMap fun k_ => (List.range n_walls).map fun w => KangCall.exchange w (k_ + 1) else [])
+'''
+
+
 def _body(fn):
     return [s for s in fn.body if not (isinstance(s, ast.Expr) and isinstance(s.value, ast.Constant))]
 
@@ -358,7 +443,23 @@ def generate():
     _match('calculate_energy_exchange', _body(f4), EXPECTED_EXCHANGE)
     facts['calculate_energy_exchange'] = {'statements': sum(1 for _ in ast.walk(f4) if isinstance(_, ast.stmt)), 'mode': 'recogniser'}
 
+    f5 = func(KANG, 'energy_at_receiver', cls='PatchesKang')
+    if [a.arg for a in f5.args.args] != ['self', 'max_order', 'receiver', 'speed_of_sound', 'sampling_rate']:
+        raise TranslationError('PatchesKang.energy_at_receiver: parameters')
+    _match('PatchesKang.energy_at_receiver', _body(f5), EXPECTED_RECV)
+    facts['PatchesKang.energy_at_receiver'] = {'statements': sum(1 for _ in ast.walk(f5) if isinstance(_, ast.stmt)), 'mode': 'recogniser'}
+    f6 = func(KANG, 'run', cls='RadiosityKang')
+    if [a.arg for a in f6.args.args] != ['self', 'source']:
+        raise TranslationError('RadiosityKang.run: parameters')
+    _match('RadiosityKang.run', _body(f6), EXPECTED_RUN)
+    facts['RadiosityKang.run'] = {'statements': sum(1 for _ in ast.walk(f6) if isinstance(_, ast.stmt)), 'mode': 'recogniser'}
+    f7 = func(KANG, 'energy_at_receiver', cls='RadiosityKang')
+    if ast.unparse(f7.args) != 'self, receiver, max_order_k=None, ignore_direct=False':
+        raise TranslationError('RadiosityKang.energy_at_receiver: parameters')
+    _match('RadiosityKang.energy_at_receiver', _body(f7), EXPECTED_ROOM_RECV)
+    facts['RadiosityKang.energy_at_receiver'] = {'statements': sum(1 for _ in ast.walk(f7) if isinstance(_, ast.stmt)), 'mode': 'recogniser'}
+
     out = ['/- GENERATED by harness/translate/kangfn.py from %s -- do not edit. -/' % KANG, 'import Sparrow.Model.Basic',
            'set_option linter.unusedVariables false', 'namespace Sparrow.Generated.KangFn', 'open Sparrow', 'variable {α : Type}', '',
-           t1, LEAN_ADD_DELAY % KANG, LEAN_INIT % (KANG, CLSB), LEAN_EXCHANGE % (KANG, CLSB, CLSB), 'end Sparrow.Generated.KangFn']
+           t1, LEAN_ADD_DELAY % KANG, LEAN_INIT % (KANG, CLSB), LEAN_EXCHANGE % (KANG, CLSB, CLSB), LEAN_RECV % {'k': KANG, 'c': CLSB}, 'end Sparrow.Generated.KangFn']
     return '\n'.join(out) + '\n', facts
